@@ -144,6 +144,18 @@ CLAIMED = {
          "uninterpreted (only equality of lengths computed from equal arguments is used). Finding E15 (sparse kernel wrote past its 27 slots) repaired by a fix: commit.",
     technique="deductive verification: loop invariants over recursive counting sums with ghost arg-min, induction lemmas, z3 (E-matching) + sympy identities",
     design="DESIGN.md section 5 C05"),
+ "C09": dict(
+    text="Call-site preconditions of the (assumed) contract of spglib's mesh reduction, decided by symbolic execution of the real callers: "
+         "GridPoints.__init__ hands spglib the caller's direct-space rotations unchanged (or the identity alone when mesh symmetry is off) and uses "
+         "time reversal only for zero/half shifts, for which q -> -q maps the shifted grid onto itself; GridPoints._shift2boolean returns None exactly for "
+         "shifts that are neither zero nor half; MeshBase.__init__ hands GridPoints the rotations it was given and the reciprocal basis as columns "
+         "(cell . reciprocal == 1, exact identity); Phonopy.init_mesh gives Mesh and IterMesh the primitive cell's point-group operations and identical common "
+         "arguments. The weighted sum over irreducible points itself is the C10 kernel contract (phpy_get_thermal_properties: sum_i w_i sum_k g(T, f_ik)).",
+    note=TRUST + "spglib.get_stabilized_reciprocal_mesh is assumed to satisfy its documented contract (not verified). NOT decided: extract_ir_grid_points "
+         "(weights as histogram of the mapping table; sum == number of grid points), symmetry invariance of the summands (C03), generalised regular grids, "
+         "relocate_BZ_grid_address. Finding E17 (time reversal applied to arbitrarily shifted meshes) repaired by a fix: commit.",
+    technique="deductive verification: call-site preconditions by symbolic execution of the Python callers (provenance of abstracted arrays, exact 3x3 identities)",
+    design="DESIGN.md section 5 C09"),
 }
 
 NA = {
